@@ -239,7 +239,16 @@ def execute(case):
             which = (n + p + int(case.get("ignore", False))) % 3
             index = [None, pd.RangeIndex(40, 40 + n), pd.date_range("2021-03-01", periods=n, freq="D")][which]
             df = pd.DataFrame(X, index=index)
-            det.fit(df)
+            if (n + p) % 2:
+                # labelled columns; the frame used after fit holds the same numbers in the same positions under labels in another
+                # order (reported columns are positions of the frame that is passed, whatever it or the training frame is called)
+                names = [f"v{j}" for j in range(p)]
+                df.columns = names
+                det.fit(df)
+                df = df.copy()
+                df.columns = names[1:] + names[:1]
+            else:
+                det.fit(df)
             y = det.predict(df)
             out["anoms"] = [(int(iv.left), int(iv.right), [int(c) for c in cols]) for iv, cols in zip(y["ilocs"], y["icolumns"])]
             out["dense"] = np.asarray(det.transform(df).values)
